@@ -39,6 +39,7 @@ type Op struct {
 	WLen   uint64
 	UID    string
 	GID    string
+	Aname  string // attach: the file tree asked for (ufs serves one tree and ignores it)
 }
 
 // NameSexp prints a name as #hex, or - when it contains a long run of one byte -
@@ -84,7 +85,9 @@ func NamesSexp(ns []string) sx.S {
 func (o Op) Sexp() sx.S {
 	f := sx.U(uint64(o.Fid))
 	switch o.Kind {
-	case "attach", "stat", "clunk", "remove", "readdir":
+	case "attach":
+		return sx.L(sx.Sym("attach"), f, NameSexp(o.Aname))
+	case "stat", "clunk", "remove", "readdir":
 		return sx.L(sx.Sym(o.Kind), f)
 	case "walk":
 		return sx.L(sx.Sym("walk"), f, sx.U(uint64(o.NewFid)), NamesSexp(o.Names))
@@ -159,6 +162,29 @@ func (sb *Sandbox) Remove() {
 	}
 	// directories may have been chmod-ed to 0; we are root, RemoveAll copes
 	os.RemoveAll(sb.S)
+}
+
+// ExportIno is the inode number of the export root when the sandbox was made.
+func (sb *Sandbox) ExportIno() uint64 { return sb.ino }
+
+// FdsInto lists the descriptors of this process that refer to objects in or
+// below dir (by /proc/self/fd; unlinked files keep their old path there).
+func FdsInto(dir string) []string {
+	ents, err := os.ReadDir("/proc/self/fd")
+	if err != nil {
+		return nil
+	}
+	var out []string
+	for _, e := range ents {
+		l, err := os.Readlink("/proc/self/fd/" + e.Name())
+		if err != nil {
+			continue
+		}
+		if l == dir || strings.HasPrefix(l, dir+"/") || strings.HasPrefix(l, dir+" (deleted)") {
+			out = append(out, e.Name()+"->"+l)
+		}
+	}
+	return out
 }
 
 // Events returns a description of every inotify event since the last call
@@ -424,9 +450,10 @@ func (s *Sess) TakeSpy() []SpyCall {
 }
 
 type FidState struct {
-	Fid  uint32
-	Path string
-	Open int // 0 not open, 1 directory stream, 2 file
+	Fid     uint32
+	Path    string
+	Open    int    // 0 not open, 1 directory stream, 2 file
+	QidPath uint64 // the entry's Qid.Path: the host inode number newRef saw
 }
 
 // Fids reads the session's fid table through the verif hooks.
@@ -438,7 +465,7 @@ func (s *Sess) Fids() []FidState {
 		if !ok || ent == nil {
 			continue
 		}
-		st := FidState{Fid: uint32(e.Fid)}
+		st := FidState{Fid: uint32(e.Fid), QidPath: ent.Qid().Path}
 		if se, isSpy := ent.(spyEnt); isSpy {
 			st.Path = se.FileRef.Path
 		} else if fr, isRef := ent.(*ufs.FileRef); isRef {
@@ -540,7 +567,7 @@ func (s *Sess) do(o Op) (sx.S, []byte) {
 	fid := p9p.Fid(o.Fid)
 	switch o.Kind {
 	case "attach":
-		q, err := s.S.Attach(ctx, fid, p9p.NOFID, "u", "")
+		q, err := s.S.Attach(ctx, fid, p9p.NOFID, "u", o.Aname)
 		if err != nil {
 			return SErr, nil
 		}
